@@ -345,15 +345,11 @@ class ElementList(MutableSequence):
         elif isinstance(value, Element):  # it is already an instance of Element
             child = value
         elif isinstance(value, BaseDataType):
-            child = self.create_element(name, False, reference)
-            try:
-                child.value = value
-            except Exception:
-                # the value is refused: the element just created to hold it must not stay behind
-                if any(c is child for c in self.list):
-                    self.remove(child)
-                child._parent = None
-                raise
+            # the element that holds the value is built on its own and joins the children below, once the value has been
+            # accepted: a refused value leaves nothing behind, not even the materialisation of an element reached by traversal
+            child = reference['cls'](child_name, reference=child_ref, version=self.element.version,
+                                     validation_level=self.element.validation_level)
+            child.value = value
         else:
             raise ChildNotValid(value, child_name)
 
